@@ -22,6 +22,7 @@ THEOREMS = [
     "c05_accepted_junk",
     "c05_good_lines_filterMap",
     "c05_bad_line_isolated",
+    "c05_sessions_independent",
     "c05_notifications_offered",
     "c05_only_lf_separates",
     "c05_real_codec_line",
@@ -43,7 +44,9 @@ RULE = (
     "late / slow / vanished consumer, per-request streams of the legacy API under ids of both JSON types and falsy ids "
     "(open and closed receivers), write side closed first, the three entry points (StdioClient, stdio_client(), "
     "StdioTransport), one client object used for two sessions, str / mixed chunks, 100 kB format-hostile lines with "
-    "64 KiB-aligned reads, 100 000-deep nesting, a non-UTF-8 last read, junk-only and duplicated lines; message pools with "
+    "64 KiB-aligned reads, 100 000-deep nesting, a non-UTF-8 last read, junk-only and duplicated lines; well-formed lines at "
+    "the edge of the decoders' domains (lone surrogate escapes, 1e400, nesting of 1024 / 1040 levels) between good lines; a second "
+    "session on the same object after a first one whose child died inside a line / a character; message pools with "
     "falsy values, type twins, constants harvested from the anchored modules, extra / reordered members; "
     "non-trivial = distinct (stream, cuts, scenario)"
 )
@@ -211,6 +214,16 @@ def scenario_cases(rng, budget):
     # credential-looking environment of the child, a working directory that does not exist
     out.append({"items": base, "cuts": [9], "server": {"env": {"API_KEY": "sk-123", "SECRET_TOKEN": "t", "DB_PASSWORD": "p w", "PATH": ""}},
                 "opts": {"scenario": "connection-options"}})
+    # well-formed lines at the edge of the decoders' domains, each with good lines around it
+    edge = []
+    for k, t in enumerate(G.edge_lines()):
+        edge += [resp(k), {"text": t, "term": nl if k % 2 else "\r\n"}, notif(k)]
+        out.append({"items": [resp(1), {"text": t, "term": nl}, notif(2)], "cuts": [20], "opts": {"scenario": "decoder-edge"}})
+    out.append({"items": edge, "cuts": list(range(512, len(G.stream_bytes({"items": edge})), 512)), "opts": {"scenario": "decoder-edge"}})
+    # a SECOND session on the same client object after a first one whose child died in the middle of a line / of a character
+    for api in ("client", "transport", "function"):
+        for tail in ('{"jsonrpc":"2.0","me', '{"jsonrpc":"2.0","method":"\u00e9'.encode("utf-8")[:-1].hex() + "#hex", "\u20ac".encode("utf-8")[:2].hex() + "#hex", "xx"):
+            out.append({"items": base + [notif(1)], "cuts": [n0 // 2], "first_tail": tail, "opts": {"scenario": "second-session-after-broken-first", "api": api}})
     # nothing but blank / junk lines; the same line many times
     out.append({"items": [{"text": t, "term": rng.choice([nl, "\r\n"])} for t in G.JUNK], "cuts": [], "opts": {"scenario": "junk-only"}})
     out.append({"items": [resp(1, 1)] * 5 + [notif(1)] * 5, "cuts": [10], "opts": {"scenario": "duplicates"}})
@@ -320,6 +333,8 @@ class Chunking(Suite):
 
         def harness_case(c):
             h = dict({"events": events_for(c), "opts": c.get("opts", {})}, **{k: c[k] for k in ("debug", "server") if k in c})
+            if c.get("first_tail") is not None:  # session 1: the same lines, then an unterminated fragment and EOF; session 2: the lines
+                h["session_events"] = [h["events"] + [{"c": self._first_tail(c).hex()}], h["events"]]
             if c.get("with"):
                 h["with"] = [harness_case(w) for w in c["with"]]
             return h
@@ -335,32 +350,48 @@ class Chunking(Suite):
         return out
 
     # ------------------------------------------------------------------ model
+    @staticmethod
+    def _first_tail(case):
+        t = case["first_tail"]
+        return bytes.fromhex(t[:-4]) if t.endswith("#hex") else t.encode("utf-8")
+
     def model_line(self, case):
         table, _ = G.line_table([it["text"] for it in case["items"]] + ([case["tail"]] if case.get("tail") else []))
         opts = case.get("opts", {})
         regs = [{"reg": str(k)} for k in list(opts.get("pending", [])) + list(opts.get("pending_closed", []))]
-        return {"m": "stdio_reader", "events": regs + [{"c": bytes.fromhex(e["c"]).hex() if "c" in e else e["s"].encode("utf-8").hex()}
-                                                        for e in events_for(case) if "sleep" not in e], "table": table, "cap": NOTIF_CAP}
+        evs = regs + [{"c": bytes.fromhex(e["c"]).hex() if "c" in e else e["s"].encode("utf-8").hex()}
+                      for e in events_for(case) if "sleep" not in e]
+        if case.get("first_tail") is not None:  # two connections on one object (Model.StdioIn.runSessions)
+            return {"m": "stdio_reader", "sessions": [evs + [{"c": self._first_tail(case).hex()}], evs], "table": table, "cap": NOTIF_CAP}
+        return {"m": "stdio_reader", "events": evs, "table": table, "cap": NOTIF_CAP}
 
     def model_obs(self, out, case):
         _, msgs = G.line_table([it["text"] for it in case["items"]] + ([case["tail"]] if case.get("tail") else []))
         if "driver_error" in out:
             return out
-        reqs = {}
-        for k, i in out.get("requests", []):
-            reqs.setdefault(k, []).append(msgs[i][0])
-        return {"requests": reqs, "delivered": [msgs[i][0] for i in out["delivered"]], "notified": [msgs[i][0] for i in out["offered"]],
-                "rejections": out["rejections"]}
+
+        def one(out):
+            reqs = {}
+            for k, i in out.get("requests", []):
+                reqs.setdefault(k, []).append(msgs[i][0])
+            return {"requests": reqs, "delivered": [msgs[i][0] for i in out["delivered"]], "notified": [msgs[i][0] for i in out["offered"]],
+                    "rejections": out["rejections"]}
+
+        if "sessions" in out:
+            ss = [one(x) for x in out["sessions"]]
+            return dict(ss[-1], earlier=ss[:-1])
+        return one(out)
 
     def compare(self, case, o, m):
         from .. import core
 
         if "harness_error" in o or "driver_error" in m:
             return "error"
-        for ob in o.get("earlier", []) + [o]:
-            if ob["delivered"] is not None and core.canon(ob["delivered"]) != core.canon(m["delivered"]):
+        obs = o.get("earlier", []) + [o]
+        for ob, mm in zip(obs, (m["earlier"] + [m]) if "earlier" in m else [m] * len(obs)):
+            if ob["delivered"] is not None and core.canon(ob["delivered"]) != core.canon(mm["delivered"]):
                 return "delivered"
-            if not G.notif_ok(ob["notified"], m["notified"]):  # None: no notification stream handed out / receiver closed
+            if not G.notif_ok(ob["notified"], mm["notified"]):  # None: no notification stream handed out / receiver closed
                 return "notified"
         # supplementary (the property text does not name the per-request streams of the legacy API): informational
         for k, got in (o.get("legacy") or {}).items():
